@@ -100,8 +100,13 @@ func (s *SuffrageStateBuilder) Build(
 				return lastheight, nil, nil, e.Wrap(err)
 			}
 
+			// NOTE the proofs from buildBatch end with the proof of the last
+			// suffrage height; it should be the last proof of remote.
+			if n := len(ps); n < 1 || ps[n-1] == nil || !ps[n-1].State().Hash().Equal(proof.State().Hash()) {
+				return lastheight, nil, nil, e.Errorf("last suffrage proof does not match")
+			}
+
 			proofs = ps
-			proofs = append(proofs, proof)
 		}
 	}
 
@@ -123,7 +128,7 @@ func (s *SuffrageStateBuilder) buildBatch(
 
 	newprev := localstate
 	var previous base.State
-	var proofs []base.SuffrageProof
+	var proofs, allproofs []base.SuffrageProof
 	var provelock sync.Mutex
 
 	if err := util.BatchWork(
@@ -132,6 +137,9 @@ func (s *SuffrageStateBuilder) buildBatch(
 		s.batchlimit,
 		func(_ context.Context, last uint64) error {
 			previous = newprev
+
+			// NOTE keeps the proofs of the previous batches
+			allproofs = append(allproofs, proofs...)
 
 			switch r := (last + 1) % uint64(s.batchlimit); {
 			case r == 0:
@@ -152,6 +160,8 @@ func (s *SuffrageStateBuilder) buildBatch(
 				return err
 			case !found:
 				return util.ErrNotFound.Errorf("suffrage proof not found, %d", height)
+			case proof.SuffrageHeight() != height:
+				return errors.Errorf("wrong suffrage height of proof; expected %d, but %d", height, proof.SuffrageHeight())
 			}
 
 			return func() error {
@@ -173,7 +183,7 @@ func (s *SuffrageStateBuilder) buildBatch(
 		return nil, e.Wrap(err)
 	}
 
-	return proofs, nil
+	return append(allproofs, proofs...), nil
 }
 
 func (*SuffrageStateBuilder) prove(
@@ -191,7 +201,7 @@ func (*SuffrageStateBuilder) prove(
 	height := proof.SuffrageHeight()
 
 	index := (height - prevheight - 1).Int64()
-	if index >= int64(len(proofs)) {
+	if index < 0 || index >= int64(len(proofs)) {
 		return errors.Errorf("wrong height")
 	}
 
